@@ -38,24 +38,20 @@ fn c04_lane_fns() {
     let d = ob_data_word_id_to_connector(id);
     let e = ob_data_word_id_to_input_number_connector(id);
     assert!(b < 32 && d < 4 && e < 8);
+    // (covers first: `1 << lane` for lane >= 32 fails rustc's dev-profile overflow check, after which
+    // Kani assumes the overflow away; it is reported as a dev-profile-only note)
+    kani::cover!(a >= 32, "OB lane number >= 32 (id outside the valid ranges)");
+    kani::cover!(a < 28, "valid OB lane");
     let _ = is_lane_active(a, mask);
     let _ = is_lane_active(c, mask);
-    kani::cover!(a >= 32, "OB lane number >= 32 (id with input 7)");
-    kani::cover!(a < 28, "valid OB lane");
 }
 
-//@ harness: c04_rdh_validators props=C04 tier=quick class=crash covers=2 mem=20 timeout=1800 est=300
-//@ bounds: 2 ARBITRARY 64-byte headers through the RDH sanity validator and the RDH running checker (no precondition at all): no panic, no memory error (expected-page-counter overflow after 65535 pages is outside)
-#[kani::proof]
-#[kani::unwind(3)]
-#[kani::stub(alloc::fmt::format, crate::vsup::stub_format)]
-#[kani::stub(core::fmt::write, crate::vsup::stub_write)]
-fn c04_rdh_validators() {
+fn rdh_validators(n: usize) {
     let mut sv = RdhCruSanityValidator::<RdhCru>::new();
     let mut rc = RdhCruRunningChecker::<RdhCru>::new();
     let mut any_err = false;
     let mut i = 0;
-    while i < 2 {
+    while i < n {
         let b: [u8; 64] = kani::any();
         let rdh = RdhCru::from_buf(&b).unwrap();
         let r1 = sv.sanity_check(&rdh);
@@ -67,4 +63,24 @@ fn c04_rdh_validators() {
     kani::cover!(any_err, "some header rejected");
     kani::cover!(!any_err, "all accepted");
     core::mem::forget((sv, rc));
+}
+
+//@ harness: c04_rdh_validators props=C04 tier=quick class=crash covers=2 mem=16 timeout=1200 est=200
+//@ bounds: 1 ARBITRARY 64-byte header through the RDH sanity validator and the RDH running checker (no precondition at all), all CBMC memory-safety checks on: no panic, no memory error
+#[kani::proof]
+#[kani::unwind(2)]
+#[kani::stub(alloc::fmt::format, crate::vsup::stub_format)]
+#[kani::stub(core::fmt::write, crate::vsup::stub_write)]
+fn c04_rdh_validators() {
+    rdh_validators(1);
+}
+
+//@ harness: c04_rdh_validators2 props=C04 tier=thorough required=no class=crash covers=2 mem=28 timeout=3000 est=900
+//@ bounds: 2 arbitrary headers in sequence
+#[kani::proof]
+#[kani::unwind(3)]
+#[kani::stub(alloc::fmt::format, crate::vsup::stub_format)]
+#[kani::stub(core::fmt::write, crate::vsup::stub_write)]
+fn c04_rdh_validators2() {
+    rdh_validators(2);
 }
